@@ -202,6 +202,12 @@ func (e *Engine) verifyContract(c *Contract) (res *UnitResult) {
 			}
 		}
 		resVals[i] = Val{T: n, S: s, Ty: t}
+		if len(rets) == 1 && i < len(rets[0].vals) {
+			// single return: what is known about how the value was built stays known
+			if f, ok := x.fmtOf[rets[0].vals[i].T]; ok {
+				x.setFmt(n, f)
+			}
+		}
 	}
 	exit := x.merge(states)
 	if len(states) == 1 {
